@@ -385,6 +385,10 @@ class Parser:
         if value is not None:
             move_inst = OpCode.MOVEQ
             if uminus:
+                if isinstance(value, bool) or not isinstance(
+                        value, (int, float)):
+                    return self.token_error(
+                        'A minus is allowed only for numbers, got "{}".')
                 value *= -1
         elif self._current_token.is_a(TokenTypes.NAME):
             name = str(self._current_token)
